@@ -183,6 +183,26 @@ class Executor:
         s.add(cond)
         return s.check() != z3.unsat
 
+    def determined_int(self, e, limit=12):
+        """the integer value of e when the path condition fixes it (solver-decided: one model value c, then `e != c` unsatisfiable); else None.
+        Lets loops over containers whose length is fixed by the preconditions (e.g. a dict filled with keys known to be distinct) be unrolled."""
+        v = z3.simplify(e) if is_z3(e) else e
+        if isinstance(v, int):
+            return v
+        if z3.is_int_value(v):
+            return v.as_long()
+        s = z3.Solver()
+        s.set("rlimit", 400_000)
+        s.add(*self.pc)
+        s.add(*self.facts)
+        if s.check() != z3.sat:
+            return None
+        c = s.model().eval(v, model_completion=True)
+        if not z3.is_int_value(c) or not (-limit <= c.as_long() <= limit):
+            return None
+        s.add(v != c)
+        return c.as_long() if s.check() == z3.unsat else None
+
     def decide(self, cond):
         if isinstance(cond, bool):
             return cond
@@ -1047,7 +1067,24 @@ class Executor:
                 if z3.is_int_value(ks):
                     k = ks.as_long()
                 else:
-                    raise Unsupported("symbolic key into concrete dict")
+                    cand = [(lift(kk), vv) for kk, vv in h.items if is_z3(lift(kk)) and not isinstance(lift(kk), CVal)]
+                    if len(cand) != len(h.items):
+                        raise Unsupported("symbolic key into a dict with non-integer keys")
+                    for kk, vv in cand:
+                        if z3.eq(z3.simplify(kk), ks):
+                            return vv          # syntactically the same key (e.g. the loop variable of `for k in d`)
+                    if getattr(self, "in_spec", False):
+                        # specification: the value as a case split over the keys (callers guard with `k in d`)
+                        if not cand or not all(is_z3(lift(vv)) and not isinstance(lift(vv), CVal) for _, vv in cand):
+                            raise Unsupported("specification reads a symbolic key of a dict with non-scalar values")
+                        r = lift(cand[-1][1])
+                        for kk, vv in reversed(cand[:-1]):
+                            r = z3.If(ks == kk, lift(vv), r)
+                        return r
+                    for kk, vv in cand:      # each comparison is a path decision, first equal key wins (keys are pairwise distinct)
+                        if self.decide(ks == kk):
+                            return vv
+                    raise RaiseEx("KeyError", getattr(node, "lineno", 0))
             if not h.has(k):
                 if getattr(self, "in_spec", False):
                     raise Unsupported(f"specification reads missing key {k!r}")
@@ -1218,8 +1255,8 @@ class Executor:
     def ev_DictComp(self, e, env):
         """{kexpr: vexpr for ... in <symbolic sequence>} (no filter): modelled when the key expression is injective along the
         sequence (decided here, under the path condition) - the result then has one entry per element, in iteration order."""
-        if len(e.generators) != 1 or e.generators[0].ifs:
-            raise Unsupported("dict comprehension with filter / nested generators")
+        if len(e.generators) != 1:
+            raise Unsupported("dict comprehension with nested generators")
         g = e.generators[0]
         it = self.ev(g.iter, env)
         conc = self.try_iter_concrete(it)
@@ -1228,8 +1265,11 @@ class Executor:
             for x in conc:
                 env2 = dict(env)
                 self.bind(g.target, x, env2)
-                self.setitem(d, self.ev(e.key, env2), self.ev(e.value, env2), e)
+                if all(self.decide(self.truth(self.ev(f, env2))) for f in g.ifs):    # a filter is a path decision per element
+                    self.setitem(d, self.ev(e.key, env2), self.ev(e.value, env2), e)
             return d
+        if g.ifs:
+            raise Unsupported("dict comprehension with a filter over a symbolic sequence")
         seq = self.as_seq(it)
         t, u = fresh("t"), fresh("u")
 
@@ -1344,9 +1384,9 @@ class Executor:
                 if tag == "keys":
                     return [lift(k) for k, _ in d.items]
                 return [v for _, v in d.items]
-            n = z3.simplify(d.n)
-            if z3.is_int_value(n):
-                ks = [z3.simplify(z3.Select(d.karr, k)) for k in range(n.as_long())]
+            n = self.determined_int(d.n)
+            if n is not None:
+                ks = [z3.simplify(z3.Select(d.karr, k)) for k in range(n)]
                 if tag == "keys":
                     return ks
                 if tag == "values":
@@ -1359,6 +1399,10 @@ class Executor:
             lo, hi = z3.simplify(it.lo), z3.simplify(it.hi)
             if z3.is_int_value(lo) and z3.is_int_value(hi):
                 return [z3.IntVal(k) for k in range(lo.as_long(), hi.as_long(), it.step)]
+            if isinstance(it.step, int):
+                span = self.determined_int(hi - lo)       # symbolic start, length fixed by the path condition
+                if span is not None:
+                    return [z3.simplify(lo + k) for k in range(0, span, it.step)]
             raise Unsupported("symbolic range")
         h = self.deref(it)
         if isinstance(h, CList):
@@ -1370,9 +1414,9 @@ class Executor:
             if z3.is_int_value(n):
                 return [z3.simplify(z3.Select(h.arr, k)) for k in range(n.as_long())]
         if isinstance(h, ADict):
-            n = z3.simplify(h.n)
-            if z3.is_int_value(n):
-                return [z3.simplify(z3.Select(h.karr, k)) for k in range(n.as_long())]
+            n = self.determined_int(h.n)
+            if n is not None:
+                return [z3.simplify(z3.Select(h.karr, k)) for k in range(n)]
         if isinstance(h, str):
             return list(h)
         raise Unsupported("not concretely iterable")
@@ -1490,6 +1534,8 @@ class Executor:
                 fv.append((fname, vals[k]))
             elif fname in kwargs:
                 fv.append((fname, kwargs[fname]))
+            elif isinstance(self.ix.class_field_defaults(cls).get(fname), ast.Constant):
+                fv.append((fname, self.ev(self.ix.class_field_defaults(cls)[fname], {})))      # literal default of the dataclass field
             else:
                 raise Unsupported(f"constructor {cls}: missing {fname}")
         self.heap[obj.id] = Obj(cls, tuple(fv))
